@@ -65,7 +65,7 @@ class ApiWorld(World):
             self.events.append(('select', lv == ('opaque', 'level')))
             if self.plan['select'] == 'err':
                 return ('future', 'ready', err(('opaque', 'consistency-error')))
-            return ('future', 'ready', ok(('vec', [('key', n) for n in NODES])))
+            return ('future', 'ready', ok(('vec', [('key', n) for n in (NODES if self.plan['select'] == 'ok' else [])])))
         if name.endswith('::clock::Clock::get_time'):
             self.clock_reads += 1
             return ('future', 'ready', ('ts', 'now%d' % self.clock_reads))
@@ -176,6 +176,7 @@ def check_api(ctx, facts, rule):
     from orswot_abs import _fallback
     SCEN = [('selection refused', {'select': 'err', 'local': 'ok', 'remote': {}}),
             ('local write fails', {'select': 'ok', 'local': 'err', 'remote': {}}),
+            ('no replica selected (level None)', {'select': 'empty', 'local': 'ok', 'remote': {}}),
             ('both replicas acknowledge', {'select': 'ok', 'local': 'ok', 'remote': {'r1': 'ok', 'r2': 'ok'}}),
             ('the first replica fails', {'select': 'ok', 'local': 'ok', 'remote': {'r1': 'err', 'r2': 'ok'}}),
             ('the second replica fails', {'select': 'ok', 'local': 'ok', 'remote': {'r1': 'ok', 'r2': 'err'}}),
@@ -192,6 +193,7 @@ def check_api(ctx, facts, rule):
         return _fallback(ctx, rule, e)
     WANT_IDS = {'put': ('d1',), 'del': ('d1',), 'put_many': ('d1', 'd2'), 'del_many': ('d1', 'd2')}
     LOCAL = {'put': 'Set', 'put_many': 'MultiSet', 'del': 'Del', 'del_many': 'MultiDel'}
+    QUEUED = {'put': 'Put', 'put_many': 'MultiPut', 'del': 'Del', 'del_many': 'MultiDel'}
     for meth in METHODS:
         body = paths[meth]
         site_ = '%s:%s' % (body.file, body.line)
@@ -225,11 +227,12 @@ def check_api(ctx, facts, rule):
                     if is_ok or queued or remote:
                         bad.append('the local write failed but the call returns %s, queued %s, sent %s' % ('Ok' if is_ok else 'Err', queued, remote))
                     continue
-                if len(queued) != 1 or queued[0][2] != WANT_IDS[meth] or queued[0][3] != stamp:
+                if len(queued) != 1 or queued[0][2] != WANT_IDS[meth] or queued[0][3] != stamp or queued[0][1] != QUEUED[meth]:
                     bad.append('the distributor is handed %s — expected the same operation (ids %s, stamp %s) exactly once' % (queued, WANT_IDS[meth], stamp))
                 nodes_hit = sorted(e[1] for e in remote if e[1] is not None)
-                if nodes_hit != sorted(NODES) or len(remote) != len(NODES):
-                    bad.append('the selected replicas %s are sent %s request(s) to %s — expected exactly one each' % (NODES, len(remote), nodes_hit))
+                sel_nodes = NODES if plan['select'] == 'ok' else []
+                if nodes_hit != sorted(sel_nodes) or len(remote) != len(sel_nodes):
+                    bad.append('the selected replicas %s are sent %s request(s) to %s — expected exactly one each' % (sel_nodes, len(remote), nodes_hit))
                 elif any(e[3] != WANT_IDS[meth] or e[4] != stamp for e in remote):
                     bad.append('a replica is sent ids %s / stamps %s, expected ids %s with the stamp of the local write %s' % (remote[0][3], remote[0][4], WANT_IDS[meth], stamp))
                 want_ok = all(v == 'ok' for v in plan['remote'].values())
